@@ -994,6 +994,11 @@ func (fv *FuncVerifier) convert(x Term, from, to types.Type, st *State, p token.
 	}
 	if x.Sort.Kind == KString && ts.Kind == KSlice || x.Sort.Kind == KSlice && ts.Kind == KString {
 		name := "conv_" + sanitize(x.Sort.Name) + "_" + sanitize(ts.Name)
+		// string([]byte(s)) == s and []byte(string(b)) == b (content)
+		inv := "(conv_" + sanitize(ts.Name) + "_" + sanitize(x.Sort.Name) + " "
+		if strings.HasPrefix(x.S, inv) && strings.HasSuffix(x.S, ")") {
+			return Term{x.S[len(inv) : len(x.S)-1], ts}
+		}
 		fv.u.declare("fun:"+name, fmt.Sprintf("(declare-fun %s (%s) %s)", name, x.Sort.Name, ts.Name))
 		fv.u.note("string/[]byte conversion is uninterpreted")
 		return mk(ts, "(%s %s)", name, x.S)
